@@ -89,6 +89,20 @@ var (
 	hostilePackages     = []string{"", "type", "gorums", "Nodes", "google.protobuf", "func.var", "_"}
 )
 
+// methodComments are leading comments of rpcs.
+var methodComments = []string{
+	" Read returns the value.\n",
+	" two lines\n second line\n",
+	" ends with */ and opens /* again\n",
+	" a `backtick`, \"quotes\", a \\ backslash and a tab\there\n",
+	" {{.Method.GoName}} {{end}} {{template \"x\"}}\n",
+	" unicode ☃ ünïcödé\n",
+	"go:build ignore\n",
+	" +build ignore\n\n package evil\n",
+	"no leading space",
+	"\n\n",
+}
+
 // GoCamelCase is protobuf-go's internal/strs.GoCamelCase (how protoc-gen-go
 // and protogen derive Go identifiers from proto names).
 func GoCamelCase(s string) string {
@@ -321,6 +335,14 @@ func GenDef(t *rapid.T, o GenOpts) Def {
 		}
 	case p >= 5:
 		d.Param = "paths=source_relative"
+	}
+	// leading comments of rpcs (copied into the generated stubs): ordinary and awkward texts
+	for si := range d.File.Services {
+		for mi := range d.File.Services[si].Methods {
+			if rapid.IntRange(0, 5).Draw(t, fmt.Sprintf("comment%d_%d", si, mi)) == 0 {
+				d.File.Services[si].Methods[mi].Comment = rapid.SampledFrom(methodComments).Draw(t, fmt.Sprintf("commentText%d_%d", si, mi))
+			}
+		}
 	}
 	return d
 }
